@@ -35,6 +35,7 @@ class TooManyPaths(Exception):
 # ======================================================================================
 class Model:
     def __init__(s, repo):
+        s._reassigned = {}
         s.repo = repo
         s.mods = {}
         for name, tree in repo.trees.items():
@@ -117,6 +118,24 @@ class Model:
         if g[2] in d['consts']:
             return ('const', d['consts'][g[2]])
         return None
+
+    def reassigned(s, mod, name):
+        """is the module-level name bound more than once (module-level rebinding, `global` in a function, augmented assignment)?"""
+        key = (mod, name)
+        if key not in s._reassigned:
+            tree = s.mods[mod]['tree']
+            n = 0
+            for x in ast.walk(tree):
+                if isinstance(x, (ast.Assign, ast.AugAssign, ast.AnnAssign)):
+                    tg = x.targets if isinstance(x, ast.Assign) else [x.target]
+                    for t in tg:
+                        for y in ast.walk(t):
+                            if isinstance(y, ast.Name) and y.id == name and x in tree.body:
+                                n += 1
+                elif isinstance(x, ast.Global) and name in x.names:
+                    n += 2
+            s._reassigned[key] = n > 1
+        return s._reassigned[key]
 
     def find_class(s, name):
         for m, d in s.mods.items():
@@ -271,8 +290,9 @@ class Leaf:
 
 
 class Sym:
-    def __init__(s, model, inline=None, inline_depth=3, assume=None, tag_calls=None, inline_unknown=True):
+    def __init__(s, model, inline=None, inline_depth=3, assume=None, tag_calls=None, inline_unknown=True, known=None):
         s.model = model
+        s.known = known              # names NOT to inline (None: sa/known_names.KNOWN, the helpers the rules refer to by name)
         s.inline_unknown = inline_unknown
         s._inline_depth = 0
         s.tag_calls = tag_calls      # set of attribute names: calls x.<name>(...) get a site id as 5th element
@@ -293,7 +313,14 @@ class Sym:
                 return env[n.id]
             if n.id == 'self' and cls is not None:
                 return ('self',)
-            return s.model.resolve_global(mod, n.id)
+            g = s.model.resolve_global(mod, n.id)
+            if g[0] == 'g':
+                # a module-level table of literals (tuple / list of constants, bound once) is the literal
+                lk = s.model.lookup(g)
+                if lk and lk[0] == 'const' and isinstance(lk[1], (ast.Tuple, ast.List)) and lk[1].elts and not s.model.reassigned(g[1], g[2]) \
+                        and all(isinstance(x, (ast.Constant, ast.Tuple, ast.List, ast.Load, ast.UnaryOp, ast.USub)) for x in ast.walk(lk[1])):
+                    return s.term(lk[1], {}, g[1], None)
+            return g
         if isinstance(n, ast.Attribute):
             base = T(n.value)
             if base[0] == 'ext':
@@ -307,6 +334,18 @@ class Sym:
                     for st in lk[1].body:
                         if isinstance(st, ast.Assign) and any(isinstance(t, ast.Name) and t.id == n.attr for t in st.targets) and isinstance(st.value, ast.Constant):
                             return ('c', st.value.value)
+            if base == ('self',) and s.known is not None and cls is not None and getattr(s, '_prop_depth', 0) < 3:
+                # deep mode: a read of a property whose getter is a single `return <expr>` is that expression
+                dm, dc = getattr(s, '_dyn', (mod, cls))
+                r = s.model.find_method(dm, dc, n.attr) if dc is not None else s.model.find_method(mod, cls, n.attr)
+                if r is not None and s.model.is_property(r[2]) and not any(isinstance(d, ast.Attribute) and d.attr == 'setter' for d in r[2].decorator_list):
+                    body = [b for b in r[2].body if not (isinstance(b, ast.Expr) and isinstance(b.value, ast.Constant))]
+                    if len(body) == 1 and isinstance(body[0], ast.Return) and body[0].value is not None:
+                        s._prop_depth = getattr(s, '_prop_depth', 0) + 1
+                        try:
+                            return s.term(body[0].value, {r[2].args.args[0].arg: ('self',)}, r[0], r[1])
+                        finally:
+                            s._prop_depth -= 1
             return ('attr', base, n.attr)
         if isinstance(n, ast.BinOp):
             return ('bin', BINOPS.get(type(n.op), '?'), T(n.left), T(n.right))
@@ -345,12 +384,30 @@ class Sym:
             args = []
             for a in n.args:
                 if isinstance(a, ast.Starred):
-                    args.append(('star', T(a.value)))
+                    sv = T(a.value)
+                    ar = s._tuple_arity(sv)
+                    if sv[0] in ('tuple', 'list') and not any(x[0] == 'star' for x in sv[1]):
+                        args.extend(sv[1])                      # f(*(a, b, c)) == f(a, b, c)
+                    elif ar is not None:
+                        args.extend(('sub', sv, ('c', i_)) for i_ in range(ar))     # f(*g()) with g always returning an n-tuple
+                    else:
+                        args.append(('star', sv))
                 else:
                     args.append(T(a))
             kws = []
             for k in n.keywords:
-                kws.append((k.arg if k.arg is not None else '**', T(k.value)))
+                kv = T(k.value)
+                if k.arg is None and kv[0] == 'dict' and all(kk[0] == 'c' and isinstance(kk[1], str) for kk, _ in kv[1]):
+                    kws.extend((kk[1], vv) for kk, vv in kv[1])            # f(**{"a": x}) == f(a=x)
+                else:
+                    kws.append((k.arg if k.arg is not None else '**', kv))
+            if f == ('b', 'getattr') and len(args) == 2 and not kws and args[1][0] == 'c' and isinstance(args[1][1], str) and args[1][1].isidentifier():
+                return ('attr', args[0], args[1][1])                # getattr(x, "name") == x.name
+            if f[0] == 'lambda' and not kws and len(args) == len(f[1]) and not any(a_[0] == 'star' for a_ in args):
+                body = f[2]                                     # (lambda p: body)(a)  ==  body[p := a]
+                for p_, a_ in zip(f[1], args):
+                    body = _subst(body, ('lp', p_), a_)
+                return body
             if s.tag_calls and f[0] == 'attr' and f[2] in s.tag_calls:
                 return ('call', f, tuple(args), tuple(kws), (n.lineno, n.col_offset))
             return ('call', f, tuple(args), tuple(kws))
@@ -411,6 +468,22 @@ class Sym:
         return ('unk', ast.unparse(n)[:60])
 
     # ------------------------------------------------------------------ statements
+    def _tuple_arity(s, t):
+        """n when the term is a call of a repository function whose every return statement returns an n-tuple literal"""
+        if t[0] != 'call' or t[1][0] != 'g':
+            return None
+        lk = s.model.lookup(t[1])
+        if not lk or lk[0] != 'func':
+            return None
+        ns = set()
+        for r in ast.walk(lk[1]):
+            if isinstance(r, ast.Return):
+                if isinstance(r.value, ast.Tuple) and not any(isinstance(e, ast.Starred) for e in r.value.elts):
+                    ns.add(len(r.value.elts))
+                else:
+                    return None
+        return ns.pop() if len(ns) == 1 else None
+
     def run(s, mod, fn, args=None, cls=None, self_term=None, depth=0):
         """enumerate paths of function node `fn`; args: dict param -> term (default ('p', name))"""
         env = {}
@@ -425,6 +498,7 @@ class Sym:
         l0 = Leaf()
         l0.env = env
         s._mod, s._cls, s._depth = mod, cls, depth
+        s._dyn = (mod, cls)          # the class of `self` for method / property resolution (kept through inlining: dynamic dispatch)
         s._npaths = 0
         leaves = s.block(fn.body, [l0])
         for l in leaves:
@@ -512,6 +586,17 @@ class Sym:
             for c0, t0, _ in leaf.conds:
                 if c0 == ct:
                     return ([leaf], []) if t0 else ([], [leaf])
+            # the same comparison written with the complementary operator (x is None / x is not None, a < b / a >= b)
+            nt, nf = _norm_cmp(ct, True), _norm_cmp(ct, False)
+            if nt is not None:
+                for c0, t0, _ in leaf.conds:
+                    n0 = _norm_cmp(c0, t0)
+                    if n0 is None:
+                        continue
+                    if n0 == nt:
+                        return [leaf], []
+                    if n0 == nf:
+                        return [], [leaf]
         a, b = leaf.clone(), leaf.clone()
         a.conds.append((ct, True, test))
         b.conds.append((ct, False, test))
@@ -523,7 +608,14 @@ class Sym:
         if expr is None:
             return
         for n in _calls_postorder(expr):
-            leaf.effects.append(('call', s.T(n, leaf), None, n, len(leaf.conds)))
+            t = s.T(n, leaf)
+            if isinstance(n.func, ast.Name) and leaf.env.get(n.func.id, ('?',))[0] == 'lambda':
+                # a call of a lambda held in a local / parameter: the calls of its (substituted) body happen here
+                for x in reversed(list(walk(t))):
+                    if x[0] == 'call':
+                        leaf.effects.append(('call', x, None, n, len(leaf.conds)))
+                continue
+            leaf.effects.append(('call', t, None, n, len(leaf.conds)))
         if not isinstance(expr, (ast.Constant, ast.Name)):
             leaf.effects.append(('eval', s.T(expr, leaf), None, expr, len(leaf.conds)))
 
@@ -576,7 +668,8 @@ class Sym:
                 tgt = (g[1], None, lk[1], False, '%s.%s' % (g[1], lk[1].name))
         elif isinstance(f, ast.Attribute) and isinstance(f.value, ast.Name):
             if f.value.id == 'self' and s._cls is not None and leaf.env.get('self', ('self',)) == ('self',):
-                r = m.find_method(s._mod, s._cls, f.attr)
+                dm, dc = getattr(s, '_dyn', (s._mod, s._cls))
+                r = m.find_method(dm, dc, f.attr) if dc is not None else m.find_method(s._mod, s._cls, f.attr)
                 if r and not m.is_property(r[2]):
                     static = any(isinstance(d, ast.Name) and d.id == 'staticmethod' for d in r[2].decorator_list)
                     tgt = (r[0], r[1], r[2], not static, '%s.%s.%s' % (r[0], r[1].name, r[2].name))
@@ -587,14 +680,33 @@ class Sym:
                     r = m.find_method(g[1], lk[1], f.attr)
                     if r and any(isinstance(d, ast.Name) and d.id == 'staticmethod' for d in r[2].decorator_list):
                         tgt = (r[0], r[1], r[2], False, '%s.%s.%s' % (r[0], r[1].name, r[2].name))
-        if tgt is None or tgt[4] in KNOWN:
+        if tgt is None or tgt[4] in (KNOWN if s.known is None else s.known):
             return None
         fn = tgt[2]
-        if any(isinstance(x, (ast.Yield, ast.YieldFrom)) for x in ast.walk(fn)) or fn.args.vararg or fn.args.kwarg:
+        if any(isinstance(x, (ast.Yield, ast.YieldFrom)) for x in ast.walk(fn)) or fn.args.kwarg:
             return None
-        if any(isinstance(a, ast.Starred) for a in call.args) or any(k.arg is None for k in call.keywords):
+        if any(k.arg is None for k in call.keywords):
+            return None
+        if any(isinstance(a, ast.Starred) for a in call.args) and s._pos_arg_terms(call, leaf) is None:
             return None
         return tgt
+
+    def _pos_arg_terms(s, call, leaf):
+        """positional argument terms with `*x` expanded when x is a tuple of known length; None when a star cannot be expanded"""
+        out = []
+        for a in call.args:
+            if isinstance(a, ast.Starred):
+                sv = s.T(a.value, leaf)
+                ar = s._tuple_arity(sv)
+                if sv[0] in ('tuple', 'list') and not any(x[0] == 'star' for x in sv[1]):
+                    out.extend(sv[1])
+                elif ar is not None:
+                    out.extend(('sub', sv, ('c', i_)) for i_ in range(ar))
+                else:
+                    return None
+            else:
+                out.append(s.T(a, leaf))
+        return out
 
     def inline_call(s, call, leaf, tgt):
         """-> list of (leaf, value term | None, raised?)"""
@@ -606,9 +718,11 @@ class Sym:
             params = params[1:]
         elif cls2 is not None and params and params[0] == 'self':
             return None
-        argt = [s.T(a, leaf) for a in call.args]
+        argt = s._pos_arg_terms(call, leaf)
+        if argt is None:
+            return None
         for a in call.args:
-            s.note_calls(a, leaf)
+            s.note_calls(a.value if isinstance(a, ast.Starred) else a, leaf)
         for k in call.keywords:
             s.note_calls(k.value, leaf)
         kwt = {k.arg: s.T(k.value, leaf) for k in call.keywords}
@@ -623,6 +737,10 @@ class Sym:
                 if j < 0:
                     return None
                 env[pn] = s.term(defaults[j], {}, mod2, cls2)
+        if fn.args.vararg:
+            env[fn.args.vararg.arg] = ('tuple', tuple(argt[len(params):]))
+        elif len(argt) > len(params):
+            return None
         for a, d in zip(fn.args.kwonlyargs, fn.args.kw_defaults):
             env[a.arg] = kwt.get(a.arg, s.term(d, {}, mod2, cls2) if d is not None else ('unk', a.arg))
         inner = Leaf()
@@ -646,11 +764,80 @@ class Sym:
             if r.outcome == 'raise':
                 l2.outcome, l2.value, l2.node = 'raise', r.value, r.node
                 out.append((l2, None, True))
+            elif r.outcome == 'loop-back':
+                # the helper's infinite loop goes round again: the path does not come back to the caller
+                l2.outcome, l2.value, l2.node = 'loop-back', None, r.node
+                out.append((l2, None, True))
             else:
                 out.append((l2, r.value if r.outcome == 'return' else ('c', None), False))
         return out
 
+    def _hoistable(s, st, leaf):
+        """the first helper call nested in the statement's expression that is evaluated unconditionally, can be inlined, and has
+        several paths (so it cannot be a term): it is computed into a temporary first (A-normal form)"""
+        if not s.inline_unknown or s._inline_depth >= 3:
+            return None
+        if isinstance(st, (ast.Assign, ast.AnnAssign, ast.AugAssign, ast.Return, ast.Expr)):
+            top = st.value
+            direct = isinstance(st, (ast.Assign, ast.Return, ast.Expr))
+        elif isinstance(st, ast.If):
+            top, direct = st.test, False
+        else:
+            return None
+        if top is None:
+            return None
+        found = []
+
+        def rec(n, uncond):
+            if found:
+                return
+            if isinstance(n, (ast.Lambda, ast.GeneratorExp, ast.ListComp, ast.SetComp, ast.DictComp, ast.Yield, ast.YieldFrom, ast.Await)):
+                return
+            if isinstance(n, ast.BoolOp):
+                for i_, v in enumerate(n.values):
+                    rec(v, uncond and i_ == 0)
+                return
+            if isinstance(n, ast.IfExp):
+                rec(n.test, uncond)
+                return
+            for ch in ast.iter_child_nodes(n):
+                rec(ch, uncond)
+            if isinstance(n, ast.Call) and uncond and not found and not (direct and n is top):
+                tgt = s._inline_target(n, leaf)
+                if tgt is not None:
+                    res = s.inline_call(n, leaf.clone(), tgt)
+                    if res is not None and len(res) > 1:
+                        found.append(n)
+        rec(top, True)
+        return found[0] if found else None
+
     def stmt(s, st, leaf):
+        h = s._hoistable(st, leaf)
+        if h is not None:
+            import copy
+            tmp = '__h%d' % next(s.counter)
+            h._hoist_mark = True
+            st2 = copy.deepcopy(st)
+            del h._hoist_mark
+
+            class R(ast.NodeTransformer):
+                def visit_Call(self, n):
+                    if getattr(n, '_hoist_mark', False):
+                        return ast.copy_location(ast.Name(id=tmp, ctx=ast.Load()), n)
+                    return self.generic_visit(n)
+            if isinstance(st2, ast.If):
+                st2.test = R().visit(st2.test)
+                st2.body, st2.orelse = st.body, st.orelse
+            else:
+                st2.value = R().visit(st2.value)
+            pre = ast.copy_location(ast.Assign(targets=[ast.copy_location(ast.Name(id=tmp, ctx=ast.Store()), st)], value=h), st)
+            out = []
+            for l in s.stmt(pre, leaf):
+                if l.outcome is not None:
+                    out.append(l)
+                else:
+                    out += s.stmt(st2, l)
+            return out
         # a call of a helper the rules do not know, standing as a whole statement value, is inlined (all its paths)
         if isinstance(st, (ast.Expr, ast.Assign, ast.Return)) and isinstance(getattr(st, 'value', None), ast.Call):
             tgt = s._inline_target(st.value, leaf)
@@ -671,6 +858,18 @@ class Sym:
                             l2.outcome, l2.value, l2.node = 'return', v, st
                             out.append(l2)
                     return out
+        # `x = a if c else f()` / `return a if c else f()` where a branch performs a call with effects is a branch of the
+        # control flow (the call happens on one side only); conditional expressions over pure values stay terms
+        if isinstance(st, (ast.Return, ast.Assign)) and isinstance(getattr(st, 'value', None), ast.IfExp) and _has_effect_call(st.value.body, st.value.orelse):
+            import copy
+            T, F = s.cond_split(st.value.test, leaf)
+            out = []
+            for qs, br in ((T, st.value.body), (F, st.value.orelse)):
+                st2 = copy.copy(st)
+                st2.value = br
+                for q in qs:
+                    out += s.stmt(st2, q)
+            return out
         if isinstance(st, ast.Expr):
             if isinstance(st.value, ast.Constant):
                 return [leaf]
@@ -703,6 +902,16 @@ class Sym:
                 cur = leaf.env[v.func.value.id]
                 leaf.env[v.func.value.id] = ('list', cur[1] + (s.T(v.args[0], leaf),))
             return [leaf]
+        if isinstance(st, ast.Assign) and s.known is not None and len(st.targets) == 1 and isinstance(st.targets[0], ast.Attribute) and isinstance(st.targets[0].value, ast.Name) \
+                and st.targets[0].value.id == 'self' and leaf.env.get('self', ('self',)) == ('self',) and s._cls is not None and s._inline_depth < 3:
+            # deep mode: an assignment to a property of self runs the property's setter
+            dm, dc = getattr(s, '_dyn', (s._mod, s._cls))
+            r = s.model.find_setter(dm, dc, st.targets[0].attr) if dc is not None else None
+            if r is not None:
+                fake = ast.copy_location(ast.Call(func=ast.Name(id='__setter__', ctx=ast.Load()), args=[st.value], keywords=[]), st)
+                res = s.inline_call(fake, leaf, (r[0], r[1], r[2], True, 'setter'))
+                if res is not None:
+                    return [l2 for l2, _, _ in res]
         if isinstance(st, ast.Assign):
             s.note_calls(st.value, leaf)
             if isinstance(st.value, (ast.Yield, ast.YieldFrom)):
@@ -763,7 +972,18 @@ class Sym:
                 l.effects.append(('endwith', None, None, st, len(l.conds)))
             return out
         if isinstance(st, (ast.FunctionDef, ast.AsyncFunctionDef)):
-            leaf.env[st.name] = ('localfunc', st.name, id(st))
+            body = [b for b in st.body if not (isinstance(b, ast.Expr) and isinstance(b.value, ast.Constant))]
+            a_ = st.args
+            if len(body) == 1 and isinstance(body[0], ast.Return) and body[0].value is not None and not (a_.vararg or a_.kwarg or a_.kwonlyargs or a_.defaults or st.decorator_list) \
+                    and not any(isinstance(x, (ast.Yield, ast.YieldFrom, ast.Lambda)) for x in ast.walk(st)):
+                # `def f(x): return expr` is the lambda x: expr (free variables as bound at the definition)
+                env2 = dict(leaf.env)
+                ps = tuple(x.arg for x in a_.args)
+                for p_ in ps:
+                    env2[p_] = ('lp', p_)
+                leaf.env[st.name] = ('lambda', ps, s.term(body[0].value, env2, s._mod, s._cls))
+            else:
+                leaf.env[st.name] = ('localfunc', st.name, id(st))
             leaf.notes.append(('localfunc', st))
             return [leaf]
         if isinstance(st, (ast.Import, ast.ImportFrom)):
@@ -798,6 +1018,11 @@ class Sym:
     def for_loop(s, st, leaf):
         s.note_calls(st.iter, leaf)
         it = s.T(st.iter, leaf)
+        if it[0] == 'g':
+            # a module-level constant that is a literal tuple / list is iterated like the literal (assigned once at module level)
+            lk = s.model.lookup(it)
+            if lk and lk[0] == 'const' and isinstance(lk[1], (ast.Tuple, ast.List)) and not s.model.reassigned(it[1], it[2]):
+                it = s.term(lk[1], {}, it[1], None)
         if it[0] in ('tuple', 'list') and len(it[1]) <= 8 and not st.orelse:
             cur = [leaf]
             for el in it[1]:
@@ -910,6 +1135,44 @@ class Sym:
 
 
 PURE_CALLS = {'isinstance', 'len', 'callable', 'type', 'int', 'float', 'str', 'bool', 'abs', 'min', 'max', 'round', 'hasattr', 'issubclass'}
+
+
+PURE_BUILTINS = {'round', 'int', 'len', 'float', 'abs', 'min', 'max', 'bool', 'str', 'bytes', 'tuple', 'list', 'isinstance', 'floor', 'ceil', 'divmod', 'sum', 'sorted', 'repr'}
+
+
+def _has_effect_call(*exprs):
+    for e in exprs:
+        for x in ast.walk(e):
+            if isinstance(x, ast.Call):
+                if isinstance(x.func, ast.Name) and x.func.id in PURE_BUILTINS:
+                    continue
+                if isinstance(x.func, ast.Attribute) and isinstance(x.func.value, ast.Name) and x.func.value.id in ('math', 'np', 'numpy') :
+                    continue
+                return True
+    return False
+
+
+def _norm_cmp(ct, truth):
+    if ct[0] == 'not':
+        return _norm_cmp(ct[1], not truth)
+    if ct[0] != 'cmp':
+        return None
+    op, a, b = ct[1], ct[2], ct[3]
+    if not truth:
+        op = NEGATE.get(op)
+        if op is None:
+            return None
+    if a[0] == 'c' and b[0] != 'c' and op in FLIP:
+        op, a, b = FLIP[op], b, a
+    return (op, a, b)
+
+
+def _subst(t, old, new):
+    if t == old:
+        return new
+    if isinstance(t, tuple):
+        return tuple(_subst(x, old, new) for x in t)
+    return t
 
 
 def _pure(t):
